@@ -185,6 +185,12 @@ func cmdCheck(args []string) int {
 					defer ow.Done()
 					q := buildQuery(fr.Gen, o)
 					o.Query = ""
+					if os.Getenv("GOVC_GENONLY") != "" {
+						// debugging aid: write the query, do not solve (used by the determinism self-check)
+						os.WriteFile(filepath.Join(dir, sanitizeFile(o.Name)+".smt2"), []byte(q), 0o644)
+						o.Status = "skipped"
+						return
+					}
 					prefer := "cvc5"
 					if fr.Gen != nil && fr.Gen.mode != MInt {
 						prefer = "z3-new"
